@@ -245,6 +245,7 @@ type seg struct {
 	oneByte bool
 	gaps    bool // an idle gap longer than the read timeout between packets
 	perPkt  bool // one delivery per packet (no gaps)
+	closing bool // the server closes right after its last byte, and the Read that returns that byte also returns EOF
 }
 
 func body03(k c03case) Body { return body03seg(k, seg{perPkt: true}, "C03") }
@@ -387,7 +388,8 @@ func body03seg(k c03case, sg seg, prop string) Body {
 			for _, p := range k.script {
 				all = append(all, p.bytes(c.W, k.schema)...)
 			}
-			steps = append(steps, Step{Name: "stream", Send: all})
+			steps = append(steps, Step{Name: "stream", Send: all, Cut: sg.closing})
+			c.C.EOFWithData = sg.closing
 		}
 		for _, cut := range sg.cuts {
 			c.C.Cuts = append(c.C.Cuts, c.HsIn+cut)
